@@ -77,7 +77,9 @@ SubSeqFrom(s, i) == IF i > Len(s) THEN <<>> ELSE SubSeq(s, i, Len(s))
      k = "R": stream is in tag t         (tag:t)             main-query tag reference
      k = "N": stream is not in tag t     (-tag:t)
      k = "S": some stream of tag t has the same server port  (@sub:tag:t sport:@sub:sport@)   sub-query tag reference
-   s is the id list as written (mark definitions are compared as text by the manager). *)
+   s is the id list as written (mark definitions are compared as text by the manager); t = "twice" for a mark whose
+   definition is not a plain list (the list written twice, a conjunction: id:0,1 id:0,1) - mark_add has to extend
+   such a definition so that it still denotes the marked streams. *)
 Def(k, n, s, t) == [k |-> k, n |-> n, s |-> s, t |-> t]
 Refs(d)      == IF d.k \in {"R", "N", "S"} THEN {d.t} ELSE {}
 FeatSub(d)   == d.k = "S"                     \* SubQueryFeatures # 0: invalidated completely (manager.go:605)
@@ -599,7 +601,8 @@ MarkDel(name, ids, pick) ==
     /\ MarkOK(name, Range(ids))
     /\ LET old == tags[name]
            gone == Range(ids) \cap old.M
-           nt == [old EXCEPT !.M = @ \ gone, !.def = [@ EXCEPT !.s = SeqOfSet(old.M \ gone)], !.U = @ \cup gone]
+           \* (the definition is written anew as a plain list of what is left)
+           nt == [old EXCEPT !.M = @ \ gone, !.def = [@ EXCEPT !.s = SeqOfSet(old.M \ gone), !.t = ""], !.U = @ \cup gone]
            tg1 == Inherit([tags EXCEPT ![name] = nt], allS)
            tg2 == [tg1 EXCEPT ![name].U = old.U]
            b0 == Bundle(tg2, flags, jobs, use, [during EXCEPT !.res = @ \cup gone], toConv)
